@@ -12,6 +12,10 @@ type fsWrite struct {
 	Data value // []value of bytes or DecStr-bearing value
 }
 
+// fsWrittenKey+path records that the program under test wrote the file since the harness put it there
+// (zzverif.FileWritten); natively the same is read off the modification time.
+const fsWrittenKey = "\x00written:"
+
 func (i *interpreter) fsGet(name string) (value, bool) {
 	v, ok := i.memFS[name]
 	return v, ok
@@ -73,6 +77,7 @@ func init() {
 			}
 		}
 		fr.i.fsSet(name, data)
+		fr.i.fsSet(fsWrittenKey+name, "1")
 		if h := fr.i.fsHook; h != nil {
 			callFn(fr, h, name)
 		}
